@@ -264,6 +264,19 @@ func runC18(p *Prog, r *Report) {
 						}
 						r.Check(match, R, base+"/after-arg", p.InstrPos(a), "time.After("+arg+") uses the field SetOption("+opt+") stores", fmt.Sprintf("time.After(%s) does not use the field that SetOption(%s) stores (%v): wrong deadline applied", arg, opt, want))
 						r.Check(hasAtom(p.GuardStrings(a), arg+" > 0"), R, base+"/after-guard", p.InstrPos(a), "armed only when "+arg+" > 0", "time.After("+arg+") is not guarded by "+arg+" > 0: a zero deadline (= no limit) would time out at once / a negative one fire early: guards "+strings.Join(p.GuardStrings(a), "; "))
+						// exactly then: no further condition on a deadline or survey time decides
+						// whether the timer is armed (a deadline that is armed only when it is
+						// shorter than some other time is ignored when that other time is 0 = never)
+						extra := ""
+						for _, g := range p.GuardStrings(a) {
+							if g == arg+" > 0" {
+								continue
+							}
+							if strings.Contains(g, arg) || strings.Contains(g, "Expire") || strings.Contains(g, "Deadline") {
+								extra = g
+							}
+						}
+						r.Check(extra == "", R, base+"/after-guard-exact", p.InstrPos(a), "armed whenever "+arg+" > 0", "time.After("+arg+") is armed only under the further condition "+extra+": when that condition fails a positive deadline is ignored and the call can block beyond it")
 						if mn == "SendMsg" && hasClosedQ {
 							be := false
 							for _, g := range gsC {
@@ -579,7 +592,7 @@ func c18NoPeers(p *Prog, r *Report) {
 		st := rp.Ev("store", "recv.noPeerQ")
 		okG := len(cl) == 1 && len(cl[0].Guard) == 2 && hasAtom(cl[0].Guard, "recv.failNoPeers") && hasAtom(cl[0].Guard, "len(recv.pipes) == 0")
 		q.Req(R, "xpush.RemovePipe/wakes-when-last-pipe-leaves", okG, cl.Pos(p), "close(noPeerQ) exactly when failNoPeers && len(pipes)==0", "close(noPeerQ) has other/extra conditions ("+guardsOf(cl)+"): a Send blocked while the last pipe leaves is not failed with ErrNoPeers")
-		q.Req(R, "xpush.RemovePipe/after-delete", cl.DominatedBy(del) && len(del) == 1 && len(del[0].Guard) == 0, cl.Pos(p), "tested after the pipe is removed from the table", "the no-peer test does not follow an unconditional delete(s.pipes, id)")
+		q.Req(R, "xpush.RemovePipe/after-delete", cl.DominatedBy(del) && len(del) == 1 && del[0].Unconditional(), cl.Pos(p), "tested after the pipe is removed from the table", "the no-peer test does not follow an unconditional delete(s.pipes, id)")
 		q.Req(R, "xpush.RemovePipe/replaces-channel", len(st) == 1 && st.DominatedBy(cl) && strings.HasPrefix(st[0].Args[0], "make(chan"), st.Pos(p), "noPeerQ replaced by a fresh channel", "noPeerQ is not replaced after being closed")
 	}
 	// req
